@@ -15,6 +15,7 @@ import (
 )
 
 var ZZEntries = map[string]func([]int){
+	"HJDuration": func(a []int) { HJDuration(a[0], a[1]) },
 	"HJInt8":   func(a []int) { HJInt8() },
 	"HJUint8":  func(a []int) { HJUint8() },
 	"HJInt16":  func(a []int) { HJInt16() },
@@ -301,4 +302,26 @@ func HJUnix(unit, str, d, neg int) {
 	zz.Assert(decimalJSON(e.Bytes(), str != 0, true), "unix JSON is a canonical decimal (quoted in the string form)")
 	zz.Assert(err == nil, "unix JSON decodes")
 	zz.Assert(back == t, "unix Time value round-trips through JSON exactly")
+}
+
+
+// HJDuration: EncodeDuration writes exactly the text time.Duration.String() gives (json/std_duration.go is a
+// port of that method; both are executed from SSA on the same symbolic value). Magnitude class cls:
+// 0: < 1us, 1: < 1ms, 2: < 1s, 3: < 1min, 4: < 1h, 5: < 100h, 6: the rest up to MaxInt64; sign by neg.
+// Decoding goes through time.ParseDuration, whose fraction scaling uses float64: NOT decided here.
+func HJDuration(cls, neg int) {
+	v := zz.Int64()
+	bounds := []int64{0, 1000, 1000000, 1000000000, 60000000000, 3600000000000, 360000000000000, 9223372036854775807}
+	zz.Assume(zz.And(v >= bounds[cls], v < bounds[cls+1]))
+	if cls == 6 && neg == 2 { // the extreme value
+		v = -9223372036854775807 - 1
+	} else if neg != 0 {
+		v = -v
+	}
+	e := &jx.Encoder{}
+	EncodeDuration(e, time.Duration(v))
+	want := time.Duration(v).String()
+	got := string(e.Bytes())
+	zz.Cover("duration-encoded")
+	zz.Assert(len(got) == len(want)+2 && got[0] == '"' && got[len(got)-1] == '"' && zz.EqString(got[1:len(got)-1], want), "EncodeDuration writes the text of time.Duration.String for every duration")
 }
